@@ -209,7 +209,11 @@ func (vc *VC) callCommon(st *State, v *ssa.Call, cc *ssa.CallCommon, args []Term
 					keep = append(keep, kept{addr, vc.load(st, addr)})
 				}
 			}
-			vc.havocAll(st, fmt.Sprintf("call of %s without contract (havoc)", vc.P.specName(callee)))
+			if vc.valueOnlyCall(vc.pkgOf(callee), args) && callee.Signature.Recv() == nil && len(callee.FreeVars) == 0 {
+				vc.havocForeign(st, fmt.Sprintf("call of %s without contract: handed no reference, it changes only state outside this package", vc.P.specName(callee)))
+			} else {
+				vc.havocAll(st, fmt.Sprintf("call of %s without contract (havoc)", vc.P.specName(callee)))
+			}
 			for _, k := range keep {
 				vc.store(st, k.addr, k.val)
 			}
@@ -242,6 +246,17 @@ func (vc *VC) callCommon(st *State, v *ssa.Call, cc *ssa.CallCommon, args []Term
 	// call through a function value
 	fv := args[0]
 	vc.oblige("nopanic.nil-func", label, vc.nopanicProps(), guard, not(sx("=", fv.S, "0")), "function value is not nil", pos)
+	// seq(yield): the driver of a range-over-func loop whose body is under contract
+	if len(cc.Args) == 1 {
+		if mc, ok := cc.Args[0].(*ssa.MakeClosure); ok {
+			if yf, ok := mc.Fn.(*ssa.Function); ok && yf.Synthetic == "range-over-func yield" {
+				if ysp := vc.P.findSpec(yf); ysp != nil {
+					vc.rangeFuncCall(st, v, fv, mc, yf, ysp, guard, pos, label)
+					return
+				}
+			}
+		}
+	}
 	// a captured variable the contract says holds a known closure?
 	if name := vc.calleeHint(cc.Value); name != "" {
 		target := vc.spec.Callee[name]
@@ -265,6 +280,30 @@ func (vc *VC) callCommon(st *State, v *ssa.Call, cc *ssa.CallCommon, args []Term
 				for _, f := range callee.FreeVars {
 					env["&"+f.Name()] = vc.vals[f]
 				}
+			} else {
+				// the variable holds the one closure this function makes of that literal: its captured
+				// variables are the bindings of that MakeClosure
+				var mcs []*ssa.MakeClosure
+				for _, b := range vc.fn.Blocks {
+					for _, in := range b.Instrs {
+						if mc, ok := in.(*ssa.MakeClosure); ok && mc.Fn == ssa.Value(callee) {
+							mcs = append(mcs, mc)
+						}
+					}
+				}
+				if len(mcs) != 1 {
+					vc.failf("callee clause %s = %s: the function makes %d closures of that literal", name, target, len(mcs))
+				}
+				for i, f := range callee.FreeVars {
+					if i < len(mcs[0].Bindings) {
+						env["&"+f.Name()] = vc.val(mcs[0].Bindings[i])
+						env[fmt.Sprintf("&#%d", i)] = vc.val(mcs[0].Bindings[i])
+					}
+				}
+				// that it is this closure the variable holds is itself an obligation
+				vc.declareFun("closure_fn", []string{"Int"}, "Int")
+				vc.oblige("callee-is", name, vc.nopanicProps(), guard, sx("=", sx("closure_fn", fv.S), vc.funcConst(vc.P.specName(callee))),
+					"the function value called is the closure "+target, pos)
 			}
 			vc.applyContractEnv(st, v, spec, names, cargs, callee.Signature, guard, pos, label, vc.pkgOf(callee), env, callee == vc.fn)
 			return
@@ -348,6 +387,16 @@ func (vc *VC) applyContract(st *State, v *ssa.Call, spec *FuncSpec, names []stri
 // applyContractEnv: check the precondition, havoc the frame, assume the postcondition.
 func (vc *VC) applyContractEnv(st *State, v *ssa.Call, spec *FuncSpec, names []string, args []Term, sig *types.Signature,
 	guard string, pos token.Pos, label string, pkg *types.Package, extra map[string]Term, recursive bool) {
+	vc.setResults(v, vc.applyContractFull(st, spec, names, args, sig, guard, pos, label, pkg, extra, recursive))
+}
+
+func (vc *VC) applyContractRes(st *State, spec *FuncSpec, names []string, args []Term, sig *types.Signature,
+	guard string, pos token.Pos, label string, pkg *types.Package, extra map[string]Term) []Term {
+	return vc.applyContractFull(st, spec, names, args, sig, guard, pos, label, pkg, extra, false)
+}
+
+func (vc *VC) applyContractFull(st *State, spec *FuncSpec, names []string, args []Term, sig *types.Signature,
+	guard string, pos token.Pos, label string, pkg *types.Package, extra map[string]Term, recursive bool) []Term {
 	if spec.Extern {
 		vc.usedExterns[spec.Name] = true
 	} else {
@@ -361,9 +410,8 @@ func (vc *VC) applyContractEnv(st *State, v *ssa.Call, spec *FuncSpec, names []s
 		vc.assume(sx("=", n, res.S))
 		vc.assume(vc.ss().typeInv(rt, n, 0))
 		pcRes = &Term{S: n, Sort: res.Sort, T: rt}
-		vc.setResults(v, []Term{*pcRes})
 		if len(spec.clauses("ensures")) == 0 && len(spec.clauses("requires")) == 0 {
-			return
+			return []Term{*pcRes}
 		}
 	}
 	pre := st.clone(vc)
@@ -451,7 +499,7 @@ func (vc *VC) applyContractEnv(st *State, v *ssa.Call, spec *FuncSpec, names []s
 	if !spec.Pure {
 		menv := &Env{vc: vc, st: pre, old: pre, vars: map[string]Term{}, pkg: pkg, parent: env}
 		vc.bindResults(menv, sig, spec, res)
-		vc.applyModifies(st, spec, menv, guard)
+		vc.applyModifiesB(st, spec, menv, guard, vc.valueOnlyCall(pkg, args))
 	}
 	post := &Env{vc: vc, st: st, old: pre, vars: env.vars, pkg: pkg}
 	vc.bindResults(post, sig, spec, res)
@@ -478,7 +526,7 @@ func (vc *VC) applyContractEnv(st *State, v *ssa.Call, spec *FuncSpec, names []s
 		}
 		vc.assumeG(guard, s)
 	}
-	vc.setResults(v, res)
+	return res
 }
 
 // modTarget describes one item of a modifies clause.
@@ -489,6 +537,12 @@ type modTarget struct {
 
 // modifiesTargets translates the modifies clauses of spec in env.
 func (vc *VC) modifiesTargets(spec *FuncSpec, env *Env) (targets []modTarget, all bool) {
+	targets, all, _ = vc.modifiesTargets3(spec, env)
+	return
+}
+
+// modifiesTargets3 also reports the item `foreign`: state outside the package (see havocForeign).
+func (vc *VC) modifiesTargets3(spec *FuncSpec, env *Env) (targets []modTarget, all bool, foreign bool) {
 	// ghost assignments of the contract write their targets
 	for _, c := range spec.clauses("ghostset") {
 		targets = append(targets, vc.exprTargets(env, c.LHS, c.Name)...)
@@ -500,6 +554,8 @@ func (vc *VC) modifiesTargets(spec *FuncSpec, env *Env) (targets []modTarget, al
 			case item == "" || item == "nothing":
 			case item == "everything":
 				all = true
+			case item == "foreign":
+				foreign = true
 			case strings.HasPrefix(item, "all(") && strings.HasSuffix(item, ")"):
 				// all(T.f.g): whole field array; all(T): every field of every T object
 				path := item[4 : len(item)-1]
@@ -767,11 +823,40 @@ func (vc *VC) exprTargets(env *Env, e Expr, text string) []modTarget {
 	panic(execErr("cannot interpret modifies item " + text))
 }
 
+// valueOnlyCall: a call into another package that hands over no reference (strings, numbers and
+// booleans only) and is not a method of one of this package's objects.
+func (vc *VC) valueOnlyCall(pkg *types.Package, args []Term) bool {
+	if pkg == nil || vc.fn == nil || pkg == vc.pkgOf(vc.fn) || len(vc.P.foreignStores) > 0 {
+		return false
+	}
+	for _, a := range args {
+		if a.T == nil {
+			return false
+		}
+		b, ok := types.Unalias(a.T).Underlying().(*types.Basic)
+		if !ok || b.Kind() == types.UnsafePointer || b.Kind() == types.Uintptr {
+			return false
+		}
+	}
+	return true
+}
+
 func (vc *VC) applyModifies(st *State, spec *FuncSpec, env *Env, guard string) {
-	targets, all := vc.modifiesTargets(spec, env)
+	vc.applyModifiesB(st, spec, env, guard, false)
+}
+
+func (vc *VC) applyModifiesB(st *State, spec *FuncSpec, env *Env, guard string, boundary bool) {
+	targets, all, foreign := vc.modifiesTargets3(spec, env)
+	if all && boundary {
+		vc.havocForeign(st, "a callee of another package that is handed no reference changes only state outside this package")
+		return
+	}
 	if all {
 		vc.havocAll(st, "")
 		return
+	}
+	if foreign {
+		vc.havocForeign(st, "")
 	}
 	for _, t := range targets {
 		if t.idx == "" {
@@ -823,7 +908,7 @@ func (vc *VC) frameObligations(st *State, guard string, pos token.Pos, kind stri
 		return
 	}
 	env := vc.selfEnv(vc.entry, results)
-	targets, all := vc.modifiesTargets(vc.spec, env)
+	targets, all, foreignOK := vc.modifiesTargets3(vc.spec, env)
 	if all {
 		return
 	}
@@ -840,6 +925,9 @@ func (vc *VC) frameObligations(st *State, guard string, pos token.Pos, kind stri
 	names := sortedKeys(vc.stateSort)
 	for _, n := range names {
 		if whole[n] || strings.HasPrefix(n, "rng_") || strings.HasPrefix(n, "rngpos_") {
+			continue
+		}
+		if foreignOK && vc.foreignVar(n) {
 			continue
 		}
 		sortName := vc.stateSort[n]
@@ -1029,3 +1117,109 @@ func special(vc *VC, st *State, v *ssa.Call, callee *ssa.Function, args []Term, 
 }
 
 func (vc *VC) atomicHook(st *State, op string, p Term, guard string) {}
+
+// rangeFuncCall: `seq(yield)` drives a range-over-func loop.  The loop body is the synthetic function
+// yf under its own contract; the enclosing function states an invariant over the number $k of items
+// already handed to the body (clauses `rangefunc K invariant`).  Assumed of the iterator (listed in the
+// evidence): it calls yield with its items seq_item(seq, 0), seq_item(seq, 1), ... in order, stops after
+// seq_len(seq) items or as soon as yield returns false, and does nothing else.
+func (vc *VC) rangeFuncCall(st *State, v *ssa.Call, seq Term, mc *ssa.MakeClosure, yf *ssa.Function, ysp *FuncSpec, guard string, pos token.Pos, label string) {
+	vc.note("iterators (iter.Seq values) are assumed to yield their items in order, to stop when yield returns false, and to do nothing else")
+	ord := 0
+	fmt.Sscanf(ysp.Name[strings.LastIndex(ysp.Name, "/rangefunc")+len("/rangefunc"):], "%d", &ord)
+	var invs []*Clause
+	for _, c := range vc.spec.Clauses {
+		if c.Kind == "rfinvariant" && c.Loop == ord {
+			invs = append(invs, c)
+		}
+	}
+	isort := vc.ss().sortOf(yf.Params[0].Type())
+	itemFun := "seq_item_" + mangle(isort)
+	if _, ok := vc.P.prelude.funs[itemFun]; !ok {
+		vc.failf("range over an iterator of %s: no %s in the prelude", yf.Params[0].Type(), itemFun)
+	}
+	vc.P.prelude.use(vc, "seq_len")
+	vc.P.prelude.use(vc, itemFun)
+	n := sx("seq_len", seq.S)
+	vc.assume(sx(">=", n, "0"))
+	bindings := map[string]Term{}
+	for i, f := range yf.FreeVars {
+		if i < len(mc.Bindings) {
+			bindings["&"+f.Name()] = vc.val(mc.Bindings[i])
+			bindings[fmt.Sprintf("&#%d", i)] = vc.val(mc.Bindings[i])
+		}
+	}
+	mkEnv := func(s *State, k string) *Env {
+		e := vc.selfEnv(s, nil)
+		vc.bindLocalsAt(e, vc.curBlock, true)
+		e.vars["$k"] = Term{S: k, Sort: "Int", T: types.Typ[types.Int]}
+		e.vars["$n"] = Term{S: n, Sort: "Int", T: types.Typ[types.Int]}
+		e.vars["$seq"] = seq
+		if j, ok := bindings["&#0"]; ok {
+			e.vars["$jump"] = vc.load(s, j)
+		}
+		return e
+	}
+	inv := func(s *State, k string) []string {
+		var out []string
+		e := mkEnv(s, k)
+		for _, c := range invs {
+			f, err := e.boolean(c.Expr)
+			if err != nil {
+				panic(execErr(vc.clauseErr(c, err).Error()))
+			}
+			out = append(out, f)
+		}
+		return out
+	}
+	kind := fmt.Sprintf("rangefunc%d", ord)
+	// established before the first item
+	for i, f := range inv(st, "0") {
+		vc.oblige(kind+".established", invs[i].label(), invs[i].Props, guard, f, "invariant holds before the first item: "+invs[i].Text, pos)
+	}
+	havocFrame := func(s *State) {
+		menv := &Env{vc: vc, st: s, old: s, vars: map[string]Term{}, pkg: vc.pkgOf(yf)}
+		for k, t := range bindings {
+			menv.vars[k] = t
+		}
+		vc.applyModifies(s, ysp, menv, guard)
+	}
+	// one arbitrary item
+	pre := st.clone(vc)
+	step := pre.clone(vc)
+	havocFrame(step)
+	k0 := vc.fresh("rf_k", "Int")
+	stepGuard := vc.fresh("rf_step", "Bool")
+	vc.assume(implies(stepGuard, and(guard, sx("<=", "0", k0), sx("<", k0, n))))
+	for _, f := range inv(step, k0) {
+		vc.assumeG(stepGuard, f)
+	}
+	item := Term{S: sx(itemFun, seq.S, k0), Sort: isort, T: yf.Params[0].Type()}
+	vc.assume(vc.ss().typeInv(item.T, item.S, 0))
+	var names []string
+	for i, p := range yf.Params {
+		nm := p.Name()
+		if i < len(ysp.Params) && ysp.Params[i] != "" {
+			nm = ysp.Params[i]
+		}
+		names = append(names, nm)
+	}
+	// the body's contract: precondition checked, frame havocked, postcondition assumed
+	res := vc.applyContractRes(step, ysp, names, []Term{item}, yf.Signature, stepGuard, pos, label+" (one item)", vc.pkgOf(yf), bindings)
+	r := res[0].S
+	for i, f := range inv(step, sx("+", k0, "1")) {
+		vc.oblige(kind+".preserved", invs[i].label(), invs[i].Props, and(stepGuard, r), f, "invariant preserved by the loop body: "+invs[i].Text, pos)
+	}
+	// afterwards: either the body ended the loop on some item, or every item has been handed over
+	done := pre.clone(vc)
+	havocFrame(done)
+	early := vc.fresh("rf_early", "Bool")
+	doneGuard := and(guard, not(early))
+	for _, f := range inv(done, n) {
+		vc.assumeG(doneGuard, f)
+	}
+	vc.assume(implies(and(guard, early), and(stepGuard, not(r))))
+	merged := vc.merge([]parentEdge{{and(guard, early), step}, {doneGuard, done}})
+	merged.defers = st.defers
+	*st = *merged
+}
